@@ -20,6 +20,9 @@ _BLOCK = ("    total = 0\n    for item in items:\n        if item.value > thresh
 _BODY = "def planted(items, threshold, factor):\n" + _BLOCK + "\n\ndef planted_again(items, threshold, factor):\n" + _BLOCK
 
 
+_IGNORE_POOL = ["lib", "pkg", "gen", "src/gen", "lib/lib", "*gen", "lib/", "a.py", "*/b.py", "src"]
+
+
 def _tree(rng, depth):
     t = {}
     for _ in range(rng.randint(1, 3)):
@@ -43,7 +46,9 @@ _RS_BODY = ("pub fn work(x: i32, y: i32) -> i32 {\n    if x > 0 {\n        if y 
 _ROOT_CONFIG = ("nesting:\n  max_nesting_depth: 3\n  python:\n    max_nesting_depth: 2\n"
                 "magic-numbers:\n  allowed_numbers: [0, 1]\n  python:\n    allowed_numbers: [0, 1, 4242]\n  typescript:\n    max_small_integer: 20\n"
                 "srp:\n  max_methods: 5\n  python:\n    max_methods: 1\n"
-                "dry:\n  enabled: true\n  min_duplicate_lines: 3\n")
+                "dry:\n  enabled: true\n  min_duplicate_lines: 3\n"
+                "file-placement:\n  directories:\n    lib:\n      deny:\n        - pattern: '.*\\.py$'\n          reason: 'no python below lib'\n"
+                "  global_deny:\n    - pattern: 'c\\.py$'\n      reason: 'no c.py anywhere'\n")
 
 
 def _write(base, t):
@@ -73,7 +78,7 @@ def _key(vs, root, only_per_file):
     for v in vs:
         if only_per_file and (v.rule_id.startswith("dry.") or v.rule_id.startswith("stringly-typed")):
             continue
-        c[(v.rule_id, os.path.relpath(os.path.abspath(v.file_path), root), v.line, v.column)] += 1
+        c[(v.rule_id, os.path.relpath(os.path.abspath(v.file_path), root), v.line, v.column, v.message)] += 1
     return c
 
 
@@ -96,7 +101,7 @@ def entrypoints_bounded(ctx):
     from pyvc import native as _native
     _native._ensure_repo_on_path()  # `import src` must be the tree under verification ($VERIF_REPO), not an installed copy
     base = tempfile.mkdtemp(prefix="c10diff_")
-    cases = excluded_targets = 0
+    cases = excluded_targets = double_seen = 0
     try:
         try:
             from loguru import logger as _lg
@@ -118,6 +123,9 @@ def entrypoints_bounded(ctx):
                 import json as _json
                 import yaml as _yaml
                 (root / ".thailint.json").write_text(_json.dumps(_yaml.safe_load(_ROOT_CONFIG)), encoding="utf-8")
+            pats = [rng.choice(_IGNORE_POOL) for _ in range(rng.randint(0, 2))]
+            if pats:
+                (root / ".thailintignore").write_text("\n".join(pats) + "\n", encoding="utf-8")
             clear_ignore_parser_cache()
             for parts in _dirs_of(t):
                 d = root.joinpath(*parts)
@@ -137,6 +145,10 @@ def entrypoints_bounded(ctx):
                 orch = setup_base_orchestrator([d], None, False, project_root=root)
                 cli = _key(execute_linting_on_paths(orch, [d], True), str(root), False)
                 cases += 1
+                locs = {}
+                for k in api:
+                    locs.setdefault(k[:4], set()).add(k[4])
+                double_seen += any(len(m) > 1 for m in locs.values())
                 if api != cli:
                     return _refuted(name, cases, "Linter.lint(directory) differs from the CLI plumbing",
                                     {"tree": t, "target": "/".join(parts) or ".", "api_only": sorted(map(str, (api - cli).keys())),
@@ -173,10 +185,14 @@ def entrypoints_bounded(ctx):
             clear_ignore_parser_cache()
         except BaseException:  # noqa
             pass
+    if double_seen == 0:
+        return [dict(name=name, kind="bounded", verdict="unknown", carries=True, tool="native differential runs", cases=cases,
+                     budget=f"{n} projects", note="generator too weak: no run with two different violations at one location")]
     if excluded_targets < n // 5:
         return [dict(name=name, kind="bounded", verdict="unknown", carries=True, tool="native differential runs", cases=cases,
                      budget=f"{n} projects", note=f"generator too weak: only {excluded_targets} targets with an excluded name")]
     return [dict(name=name, kind="bounded", verdict="passed", carries=True, tool="native differential runs (tempfile.mkdtemp, removed)",
                  budget=f"{n} projects, seed {ctx.get('seed', 0)}", cases=cases,
                  note=f"{cases} comparisons agree (directory vs files, API vs CLI on directories and files, explicit config); "
-                      f"{excluded_targets} directory targets carry an always-excluded name")]
+                      f"{excluded_targets} directory targets carry an always-excluded name; {double_seen} runs with two different "
+                      f"violations at one location (file-placement directory deny + global deny)")]
